@@ -51,6 +51,7 @@ class Inst:
     def __init__(self, dname, iid, k=None, kvar=None, e=None, o=None):
         self.d, self.id, self.k, self.kvar = dname, iid, k, kvar
         self.e, self.o = e, o  # enum-typed / input-object-typed arguments given explicitly (else defaulted)
+        self.oxvar = None  # query side: `o: {x: $var}` - a variable NESTED in the directive's object argument
 
     def sdl(self):
         s = '@%s(n: "%s"' % (self.d, self.id)
@@ -60,7 +61,9 @@ class Inst:
             s += ", k: %d" % self.k
         if self.e is not None:
             s += ", e: %s" % self.e
-        if self.o is not None:
+        if self.oxvar is not None:
+            s += ", o: {x: $%s}" % self.oxvar
+        elif self.o is not None:
             s += ", o: {y: %s}" % self.o
         return s + ")"
 
@@ -82,7 +85,10 @@ class Inst:
             # enum-typed and input-object-typed directive arguments (explicit or defaulted, with the
             # input object's own field defaults filled in)
             out["e"] = self.e if self.e is not None else "X"
-            out["o"] = {"x": 3, "y": self.o} if self.o is not None else {"x": 1, "y": "X"}
+            if self.oxvar is not None:
+                out["o"] = {"x": variables[self.oxvar], "y": "X"}
+            else:
+                out["o"] = {"x": 3, "y": self.o} if self.o is not None else {"x": 1, "y": "X"}
         return out
 
 
@@ -431,6 +437,8 @@ def run_one(seed, preset=None, tier="quick", want_case=False):
                 inst = Inst(d, "q%d" % qn[0], dt.choose([None, 3]))
                 if dt.chance(35):
                     inst.kvar = newvar("Int", dt.choose([11, 12]))
+                if tape.sub("dnest").chance(30):
+                    inst.oxvar = newvar("Int", tape.sub("dnest").choose([21, 22]))
                 out.append(inst)
         return out
 
